@@ -25,8 +25,6 @@ static int parse_status(int status)
    below it */
 #define SOFT_LIMIT_MASK (gc.cfg_rlim_cur >= 32 ? 0xffffffffu : LOW_MASK((int) gc.cfg_rlim_cur))
 
-/* (index masked so that the snapshot taken at entry is always in bounds) */
-#define OBJ_KEPT(fd) (!FD_OK(fd) || (OLD(g.open) & BIT(fd)) == 0 || g.obj[(fd) & 31] == OLD(g.obj[(fd) & 31]))
 
 CONTRACT(fd_in_set)
 static bool fd_in_set(int fd, const int *fd_set, size_t size)
@@ -37,7 +35,7 @@ static bool fd_in_set(int fd, const int *fd_set, size_t size)
 
 CONTRACT(get_max_fd)
 static int get_max_fd(void)
-  ASSIGNS(g)
+  ASSIGNS(G_ERR)
   ENS("C11/get_max_fd.highest_descriptor_number", IMPLIES(RV >= 0, gc.cfg_rlim_cur > (uint64_t) INT_MAX ? RV == INT_MAX : (uint64_t) RV + 1 == gc.cfg_rlim_cur))
   ENS("C04/get_max_fd.failure_is_errno", IMPLIES(RV < 0, RV == -g.err && g.faults > OLD(g.faults)))
   ;
@@ -50,11 +48,11 @@ static int get_max_fd(void)
 CONTRACT(path_prepend_cwd)
 static char *path_prepend_cwd(const char *path)
   REQ_(path != NULL)
-  ASSIGNS(g.os_calls, g.err, g.faults, g.first_errno, g.prep_ptr, g.prep_src)
+  ASSIGNS(G_ERR, g.prep_ptr, g.prep_src)
   ENS("C03/path_prepend_cwd.result_recorded", IMPLIES(RV != NULL, __CPROVER_is_fresh(RV, 1) && g.prep_ptr == RV && g.prep_src == path))
   ENS("C04/path_prepend_cwd.null_sets_errno", IMPLIES(RV == NULL, g.faults > OLD(g.faults) && g.err > 0 && IMPLIES(OLD(g.faults) == 0, g.first_errno == g.err)))
   ENS("C04/path_prepend_cwd.success_has_no_failed_call", IMPLIES(RV != NULL, g.faults == OLD(g.faults) && g.first_errno == OLD(g.first_errno)))
-  ENS("C04/path_prepend_cwd.errno_sane", g.err >= 0 && g.err < 134 && g.first_errno >= 0 && g.first_errno < 134 && g.faults >= OLD(g.faults))
+  ENS("C04/path_prepend_cwd.errno_sane", G_ERR_SANE)
   ;
 
 /* process_fork, both sides of fork (the harness picks one through
@@ -66,14 +64,15 @@ CONTRACT(process_fork)
 static pid_t process_fork(const int *except, size_t num_except)
   REQ_(except != NULL && num_except == 6 && !g.in_child && g.fork_stage == 0 && g.child_pid == 0 && !g.child_live)
   ASSIGNS(g)
-  ENS("C14/process_fork.ghost_sane", GHOST_SANE && g.faults >= OLD(g.faults) && IMPLIES(OLD(g.faults) > 0, g.first_errno == OLD(g.first_errno)))
+  ENS("C14/process_fork.ghost_sane", GHOST_SANE && G_ERR_SANE)
   ENS("C12/process_fork.parent_signal_mask_restored", IMPLIES(!g.in_child, g.sigmask == OLD(g.sigmask) && g.disp_default == OLD(g.disp_default) && g.cwd_id == OLD(g.cwd_id)))
   ENS("C05/process_fork.parent_descriptors_as_before", IMPLIES(!g.in_child, g.open == OLD(g.open) && g.lib == OLD(g.lib) && g.cloexec == OLD(g.cloexec) && g.nonblock == OLD(g.nonblock)))
   ENS("C04/process_fork.parent_never_sees_zero", IMPLIES(!g.in_child, RV != 0))
   ENS("C04+C06/process_fork.success_is_live_child", IMPLIES(!g.in_child && RV > 0, RV == g.child_pid && g.child_live && !g.child_reaped && g.reaps == OLD(g.reaps) && g.fork_stage == 2 && (g.child_fate == FATE_EXECED || g.child_fate == FATE_FAILED_LATE) && g.child_fate_errno > 0 && WST_LEGAL(g.child_wstatus)))
   ENS("C04+C05/process_fork.failure_leaves_no_child", IMPLIES(!g.in_child && RV < 0, !g.child_live && (g.child_pid == 0 || g.child_reaped)))
   ENS("C04/process_fork.failure_is_real_cause", IMPLIES(!g.in_child && RV < 0 && OLD(g.faults) == 0, (g.faults > 0 && RV == -g.first_errno) || (g.child_fate == FATE_FAILED_EARLY && RV == -g.child_fate_errno)))
-  ENS("C04/process_fork.side_of_fork", IMPLIES(g.in_child, gc.cfg_child_side) && IMPLIES(RV > 0, !gc.cfg_child_side) && g.dup_ptr == OLD(g.dup_ptr) && g.dup_src == OLD(g.dup_src) && g.prep_ptr == OLD(g.prep_ptr) && g.prep_src == OLD(g.prep_src) && g.execd == OLD(g.execd) && g.env_ptr == OLD(g.env_ptr) && g.env_a == OLD(g.env_a) && g.env_b == OLD(g.env_b) && g.last_freed_vec == OLD(g.last_freed_vec) && g.cwd_id == OLD(g.cwd_id))
+  ENS("C04/process_fork.success_has_no_failed_call", IMPLIES(RV >= 0, g.faults == OLD(g.faults)))
+  ENS("C04/process_fork.side_of_fork", IMPLIES(g.in_child, gc.cfg_child_side) && IMPLIES(RV > 0, !gc.cfg_child_side) && g.dup_ptr == OLD(g.dup_ptr) && g.dup_src == OLD(g.dup_src) && g.prep_ptr == OLD(g.prep_ptr) && g.prep_src == OLD(g.prep_src) && g.execd == OLD(g.execd) && g.env_ptr == OLD(g.env_ptr) && g.env_a == OLD(g.env_a) && g.env_b == OLD(g.env_b) && g.last_freed_vec == OLD(g.last_freed_vec) && g.cwd_id == OLD(g.cwd_id) && g.now == OLD(g.now) && g.in_fd == OLD(g.in_fd) && g.stream_pos == OLD(g.stream_pos) && g.plan_pos == OLD(g.plan_pos))
   ENS("C10/process_fork.excepted_descriptors_keep_their_objects", OBJ_KEPT(except[0]) && OBJ_KEPT(except[1]) && OBJ_KEPT(except[2]) && OBJ_KEPT(except[3]) && OBJ_KEPT(except[4]) && OBJ_KEPT(except[5]) && (g.rd & EXCEPT6_MASK(except)) == (OLD(g.rd) & EXCEPT6_MASK(except)) && (g.wr & EXCEPT6_MASK(except)) == (OLD(g.wr) & EXCEPT6_MASK(except)))
   ENS("C06/process_fork.parent_sends_no_signal", g.nsig == OLD(g.nsig) && g.kill_calls == OLD(g.kill_calls))
   ENS("C12/process_fork.child_clean_signal_state", IMPLIES(g.in_child, RV == 0 && g.sigmask == 0 && DISP_ALL_DEFAULT))
